@@ -60,7 +60,8 @@ def main():
                     entry["replay_error"] = str(e)
             res[f"{c}:{tier}"] = entry
             print(sid, c, tier, "exit", rc, viol[:1], (entry.get("replay_summary") or {}).get("kind"))
-        json.dump(meta, open(meta_p, "w"), indent=1, default=str)
+        if os.environ.get("SEED_NO_META") != "1":        # (a soak with other seeds must not overwrite the recorded results)
+            json.dump(meta, open(meta_p, "w"), indent=1, default=str)
     finally:
         sh(["git", "-C", "/repo", "worktree", "remove", "--force", wt])
         shutil.rmtree(out, ignore_errors=True)
